@@ -38,6 +38,24 @@ def _trace_violations(ctx, results, prop):
     return out, drift
 
 
+def _wide(ctx, prop, violations, cov, quick):
+    """wide documents (3 .. 10^5 / 10^6 elements, damage or the deciding member only after the last one): run-length form, TraceWide.tla"""
+    wtf = os.path.join(ctx.scratch, "wide.ndjson")
+    wrp = os.path.join(ctx.scratch, "wide.json")
+    ctx.vdrive(["wide", "-trace", wtf, "-out", wrp] + ([] if quick else ["-big"]), timeout=3000)
+    wrecs = [json.loads(x) for x in open(wtf)]
+    for r in ctx.validate_traces("TraceWide.tla", "TraceWide.cfg", [wtf]):
+        for t in r["tuples"]:
+            if t[0] == "VIOLATION" and t[1] == prop:
+                rec = wrecs[t[2] - 1]
+                v = dict(property=prop, kind="wide-document", limit=rec["limit"], record=rec,
+                         input_text="shape=%s elements=%d tail=%s entry=%s" % (rec["shape"], rec["n"], rec["tail"], rec["entry"]),
+                         detail="TraceWide.tla: %s; class reported %r (%s)" % (t[3] if len(t) > 3 else "", rec["cls"], rec.get("mime")))
+                v["key"] = "%s|wide|%s|%d|%s|%s|%d" % (prop, rec["shape"], rec["n"], rec["tail"], rec["entry"], rec["limit"])
+                violations.append(v)
+    cov["wide_documents"] = len(wrecs)
+
+
 def run_json(ctx, prop):
     quick = ctx.tier == "quick"
     ctx.build_harness()
@@ -91,21 +109,7 @@ def run_json(ctx, prop):
                 v["key"] = "%s|deep|%s|%d|%s|%s|%d" % (prop, rec["shape"], rec["n"], rec["closed"], rec["entry"], rec["limit"])
                 violations.append(v)
     cov["deep_documents"] = len(brecs)
-    # wide documents (hundreds to 10^5.. elements, damage only after the last one): run-length form, TraceWide.tla
-    wtf = os.path.join(ctx.scratch, "wide.ndjson")
-    wrp = os.path.join(ctx.scratch, "wide.json")
-    ctx.vdrive(["wide", "-trace", wtf, "-out", wrp] + ([] if quick else ["-big"]), timeout=3000)
-    wrecs = [json.loads(x) for x in open(wtf)]
-    for r in ctx.validate_traces("TraceWide.tla", "TraceWide.cfg", [wtf]):
-        for t in r["tuples"]:
-            if t[0] == "VIOLATION" and t[1] == prop:
-                rec = wrecs[t[2] - 1]
-                v = dict(property=prop, kind="wide-document", limit=rec["limit"], record=rec,
-                         input_text="shape=%s elements=%d tail=%s entry=%s" % (rec["shape"], rec["n"], rec["tail"], rec["entry"]),
-                         detail="TraceWide.tla: %s; class reported %r (%s)" % (t[3] if len(t) > 3 else "", rec["cls"], rec.get("mime")))
-                v["key"] = "%s|wide|%s|%d|%s|%s|%d" % (prop, rec["shape"], rec["n"], rec["tail"], rec["entry"], rec["limit"])
-                violations.append(v)
-    cov["wide_documents"] = len(wrecs)
+    _wide(ctx, prop, violations, cov, quick)
     nvec = rep["violation_counts"].get(prop, 0)
     cov.update(
         evaluations=rep["evaluations"] + trep["evaluations"],
@@ -169,7 +173,10 @@ def c10(ctx):
     results = ctx.validate_traces("TraceJson.tla", "TraceJson.cfg", sorted(glob.glob(os.path.join(tdir, "*.ndjson"))))
     tviol, tdrift = _trace_violations(ctx, results, prop)
     violations = [x for x in rep["violations"] if x["property"] == prop] + tviol
+    wcov = {}
+    _wide(ctx, prop, violations, wcov, quick)
     cov = dict(
+        wide_documents=wcov["wide_documents"],
         evaluations=rep["evaluations"] + trep["evaluations"],
         vectors_replayed=rep["extra"]["vectors"],
         distinct_nontrivial=rep["distinct_nontrivial"],
